@@ -175,6 +175,9 @@ func randomCell(r *rand.Rand) core.Opts {
 	if o.Breaker == 2 && r.Intn(8) == 0 {
 		o.RandomFlag = true // documented to concern the greedy breaker only
 	}
+	if r.Intn(10) == 0 {
+		o.Monitor = true // a passive monitor must not change anything
+	}
 	return o
 }
 
@@ -212,4 +215,26 @@ func sortedKeys[V any](m map[string]V) []string {
 	}
 	sort.Strings(ks)
 	return ks
+}
+
+// extremeScale multiplies, in about 3 % of the cases, every size and every spacing of o by one power of two far outside
+// the usual range (2^-12 .. 2^16). Thresholds on magnitudes (a tolerance, a cut-off, an integer conversion) show only there.
+// Multiplication by a power of two keeps dyadic inputs dyadic, so exact comparisons stay exact. The network simplex
+// positioner is left alone: its x coordinates are layer numbers, so a huge width means a huge number of layers.
+func extremeScale(r *rand.Rand, o *core.Opts) bool {
+	if o.Positioner == 3 || r.Intn(32) != 0 {
+		return false
+	}
+	k := []int{-12, -8, 8, 12, 16}[r.Intn(5)]
+	f := math.Ldexp(1, k)
+	if o.HasFixed {
+		o.FixedW *= f
+		o.FixedH *= f
+	}
+	for id, s := range o.Sizes {
+		o.Sizes[id] = [2]float64{s[0] * f, s[1] * f}
+	}
+	o.NodeSpacing = fptr(o.NodeSpacingValue() * f)
+	o.LayerSpacing = fptr(o.LayerSpacingValue() * f)
+	return true
 }
